@@ -33,9 +33,9 @@ ShapeOK(t) == /\ InOrder(t) = SortedKeys
               /\ ty = 1 => RBColourable(t)
               /\ DepthOK(Height(t), Size)
 
-DOK(d) == Mode = "own" =>
-            IF nf = 1 THEN Len(d) = Cardinality(ToSet(d)) /\ ToSet(d) = lastD'
-            ELSE d = <<>>
+(* nf: 0 no notifiers, 1 both, 2 key notifier only, 3 value notifier only *)
+Notified(S) == CASE nf = 1 -> S [] nf = 2 -> {x \in S : x[1] = "K"} [] nf = 3 -> {x \in S : x[1] = "V"} [] OTHER -> {}
+DOK(d) == Mode = "own" => (Len(d) = Cardinality(ToSet(d)) /\ ToSet(d) = Notified(lastD'))
 
 TInit == Init /\ ty = 0 /\ nf = 0 /\ CursorInit
 
